@@ -214,9 +214,10 @@ private:
         return *prop;
     }
     GeometryKernelT<VecT> make_prop() {
-        auto prop = this->template create_shared_property<VecT, Entity::Vertex>("ovm:position", VecT(0));
-        assert(prop.has_value());
-        return *prop;
+        // When the position property of the source mesh is persistent, it
+        // has already been cloned together with the other persistent
+        // properties: use that one instead of failing to create a duplicate.
+        return this->template request_property<VecT, Entity::Vertex>("ovm:position", VecT(0));
     }
 
 private:
